@@ -634,11 +634,11 @@ impl Prop for C03 {
         for _ in 0..400 * scale {
             let mut m = hdr(23, 5); m.extend_from_slice(&gen_afi(rng).to_be_bytes()); m.push(*rng.pick(&[0u8, 1, 2, 3, 255, 77])); m.push(gen_safi(rng));
             v.push(format!("rr {}", hex(&m)));
-            if rng.chance(1, 2) { v.push(format!("rr {}", hex(&mutate(rng, &m)))); }
-            if rng.chance(1, 8) { v.push(format!("msg {}", hex(&m))); }
+            if rng.chance(1, 2) { let mm = mutate(rng, &m); v.push(format!("rr {}", hex(&mm))); if rng.chance(1, 3) { v.push(format!("msg {}", hex(&mm))); } }
+            if rng.chance(1, 4) { v.push(format!("msg {}", hex(&m))); }
         }
-        for n in 0..=27usize { let mut m = hdr(23, 5); m.extend_from_slice(&[0, 1, 0, 1, 9, 9, 9, 9]); m.truncate(n); v.push(format!("rr {}", hex(&m))); }
-        for l in [0u16, 19, 22, 24, 4096] { let mut m = hdr(l, 5); m.extend_from_slice(&[0, 2, 1, 1]); v.push(format!("rr {}", hex(&m))); }
+        for n in 0..=27usize { let mut m = hdr(23, 5); m.extend_from_slice(&[0, 1, 0, 1, 9, 9, 9, 9]); m.truncate(n); v.push(format!("rr {}", hex(&m))); v.push(format!("msg {}", hex(&m))); }
+        for l in [0u16, 19, 22, 24, 4096] { let mut m = hdr(l, 5); m.extend_from_slice(&[0, 2, 1, 1]); v.push(format!("rr {}", hex(&m))); v.push(format!("msg {}", hex(&m))); }
         // --- builders
         v.push("bka".into());
         for _ in 0..1500 * scale {
@@ -757,7 +757,7 @@ impl Prop for C03 {
                 if bs.len() == 19 && header_ok(&bs) && bs[18] == 4 && reply != "ok keepalive len=19 type=4" { return Err("well-formed KEEPALIVE not dispatched".into()); }
                 if bs.len() >= 21 && bs.len() <= 4096 && header_ok(&bs) && bs[18] == 3 && reply != format!("ok notification len={} type=3", bs.len()) { return Err("well-formed NOTIFICATION not dispatched".into()); }
                 if bs.len() == 23 && header_ok(&bs) && bs[18] == 5 && reply != "ok routerefresh len=23 type=5" {
-                    return Err("well-formed ROUTE-REFRESH not decoded by Message::from_octets (K13)".into());
+                    return Err("well-formed ROUTE-REFRESH not decoded by Message::from_octets".into());
                 }
                 if reply.starts_with("ok keepalive") && bs.len() != 19 { return Err("KEEPALIVE of other than 19 bytes accepted".into()); }
                 if reply.starts_with("ok") && !header_ok(&bs) { return Err("message accepted although header length disagrees with the bytes supplied".into()); }
